@@ -16,6 +16,7 @@ from __future__ import annotations
 
 import ast
 
+from .. import inline
 from ..facts import call_name, kwarg, norm
 from ..util import is_call_named
 
@@ -36,7 +37,8 @@ def check(run, ctx):
     T1 = run.rule("T1", "evaluate_metrics compares metrics[method_count] > max_methods and metrics[loc] > max_loc strictly, gates the keyword issue on check_keywords, and each message names the compared operands", floor=5,
                   decides="a class sitting exactly on a limit is not reported and one above it is; the message lists the true counts")
     ev = repo.func(f"{PKG}.metrics_evaluator.evaluate_metrics")
-    ifs = [n for n in ev.node.body if isinstance(n, ast.If)]
+    # the criteria may sit in evaluate_metrics itself or in private helpers it calls (flattened view, parameters substituted)
+    ifs = [n for n in inline.flat_stmts(repo, ev) if isinstance(n, ast.If)]
     found = {}
     for n in ifs:
         t = n.test
@@ -66,11 +68,11 @@ def check(run, ctx):
     for k in ("method_count", "loc", "keyword"):
         if k not in found:
             run.finding(T1, "evaluate_metrics", f"missing:{k}", f"no {k} criterion (or the keyword criterion is not conjoined with check_keywords)", ev.loc)
-    extra = [n for n in ifs if n not in found.values()]
+    extra = [n for n in ifs if n not in found.values() and any(is_call_named(c, "append", "extend") for c in ast.walk(n))]
     if extra:
         run.finding(T1, "evaluate_metrics", f"extra-criterion:{norm(extra[0].test)}", f"an additional criterion `{norm(extra[0].test)}` reports classes the documentation does not", ev.loc)
     rets = [n for n in ast.walk(ev.node) if isinstance(n, ast.Return)]
-    (run.ok(T1, "returns issues", "single return of the collected issues") if len(rets) == 1 and ast.unparse(rets[0].value) == "issues" else run.finding(T1, "evaluate_metrics", "returns", "evaluate_metrics has an early/other return", ev.loc))
+    (run.ok(T1, "returns issues", "single return of the collected issues") if len(rets) == 1 and isinstance(rets[0].value, ast.Name) and rets[0] is ev.node.body[-1] else run.finding(T1, "evaluate_metrics", "returns", "evaluate_metrics has an early/other return", ev.loc))
 
     T2 = run.rule("T2", "SRPConfig.from_dict reads max_methods and max_loc in the language-override branch and in the default branch", floor=2)
     fd = repo.func(f"{PKG}.config.SRPConfig.from_dict")
@@ -83,12 +85,12 @@ def check(run, ctx):
         def reads(recv_names):
             return [c for c in ast.walk(fd.node) if isinstance(c, ast.Call) and call_name(c) == "get" and isinstance(c.func.value, ast.Name) and c.func.value.id in recv_names and c.args and isinstance(c.args[0], ast.Constant) and c.args[0].value == key]
         lang_read, sect_read = reads(lang_names), reads({cpar})
-        if top is not None:
-            in_body = any(isinstance(c, ast.Constant) and c.value == key for s_ in top.body for c in ast.walk(s_))
-            in_else = any(isinstance(c, ast.Constant) and c.value == key for s_ in top.orelse for c in ast.walk(s_))
-            ok = in_body and in_else and bool(lang_read)
-        else:
-            ok = bool(lang_read) and bool(sect_read)
+        # both levels are read for the key (whatever the branch layout: if/else with the section read in both arms,
+        # section first then override, or an or-chain)
+        ok = bool(lang_read) and bool(sect_read)
+        if ok and top is not None and top.orelse:
+            # with an explicit else arm the section-level read must be in it (else a file of a language without override gets nothing)
+            ok = any(c is x for s_ in top.orelse for x in ast.walk(s_) for c in sect_read)
         if ok:
             run.ok(T2, f"from_dict[{key}]", "read at the language level with the section level as fallback, and at the section level when there is no override")
         else:
